@@ -114,3 +114,16 @@ From H263V Require Import proofs.Total1 proofs.Total3.
 Theorem source_history_total gq o ops r : safe (p_decode_next_picture gq (fold_left step ops (new_state o)) r).
 Proof. rewrite bridge_p_decode_next_picture_reachable. apply history_total. Qed.
 Print Assumptions source_history_total.
+
+(* C15 for the regenerated function: on a complete picture it returns the same state and stops at the same bit whatever
+   follows in the source *)
+From H263V Require Import proofs.Frame.
+Theorem source_frame gq o ops r0 s' r' x :
+  let s := fold_left step ops (new_state o) in
+  p_decode_next_picture gq s r0 = Ok (s', r') ->
+  picture_complete (st_opts s) (get_last_picture s) (running_options s) r0 ->
+  p_decode_next_picture gq s (ext_r x r0) = Ok (s', ext_r x r').
+Proof.
+  cbv zeta. rewrite !bridge_p_decode_next_picture_reachable. apply decode_next_picture_frame.
+Qed.
+Print Assumptions source_frame.
